@@ -359,11 +359,30 @@ def SrcStmt.renderable : SrcStmt → Bool
   | .stringz b => strBodyOk b
   | _ => true
 
-/-- Programs in the range of `render`: every statement can be written, and there are fewer than
-65,535 words (lace's statement counter is 16 bits wide; at exactly 65,535 words it rejects a
-trailing `.break` / `.orig`, which `Prog.image` does not model). -/
+/-- number of words an item occupies -/
+def Item.size : Item → Nat
+  | .stmt _ s => s.size
+  | _ => 0
+
+/-- no source text reaches the parser: an unlabelled `.blkw 0` is the only item that the
+preprocessor turns into nothing -/
+def Item.silent : Item → Bool
+  | .stmt none (.blkw n) => n == 0#16
+  | _ => false
+
+/-- once 65,535 words have been laid out (`k` = number of words before the item) nothing but
+silent items may follow -/
+def fullOk : List Item → Nat → Bool
+  | [], _ => true
+  | it :: rest, k => (decide (k < 65535) || it.silent) && fullOk rest (k + it.size)
+
+/-- Programs in the range of `render`: every statement can be written, and after the 65,535th
+word only `.blkw 0` may follow (lace's statement counter is 16 bits wide; once statement 65,535
+has been added it rejects whatever token follows — a trailing `.break` / `.orig` too — with
+`too many`, which `Prog.image` does not model).  Every program with fewer than 65,535 words
+satisfies the second condition (`fullOk_of_lt`, `Proofs/ParseProg.lean`). -/
 def Prog.renderable (P : Prog) : Bool :=
-  P.stmts.all (fun ls => ls.2.renderable) && decide (totalSize P.stmts < 65535)
+  P.stmts.all (fun ls => ls.2.renderable) && fullOk P.items 0
 
 /-- distinct label identities have distinct names -/
 def namesInjOn (names : Nat → List Char) (ids : List Nat) : Bool :=
